@@ -2,7 +2,7 @@
 import solvercheck, framework
 PID = "C03"
 MODULE = "MysticVerif.Props.C03Solve"
-THEOREMS = ["MysticVerif.C03.de_evaluations_constrained", "MysticVerif.C03.de_reported_constrained", "MysticVerif.C03.nm_evaluations_constrained", "MysticVerif.C03.nm_reported_constrained_partial", "MysticVerif.C03.K_common_fixpoint", "MysticVerif.C03.pw_evaluations_constrained", "MysticVerif.C03.pw_reported_constrained", "MysticVerif.C03.pw_step_record_partial", "MysticVerif.C03.pw_step_record_unconstrained_witness", "MysticVerif.C03.solve_de_constrained", "MysticVerif.C03.solve_nm_constrained", "MysticVerif.C03.solve_pw_constrained", "MysticVerif.Reconfig.reconfigured_record_origin", "MysticVerif.Reconfig.reconfigured_evaluations_constrained"]
+THEOREMS = ["MysticVerif.C03.de_evaluations_constrained", "MysticVerif.C03.de_reported_constrained", "MysticVerif.C03.nm_evaluations_constrained", "MysticVerif.C03.nm_reported_constrained_partial", "MysticVerif.C03.K_common_fixpoint", "MysticVerif.C03.pw_evaluations_constrained", "MysticVerif.C03.pw_reported_constrained", "MysticVerif.C03.pw_step_record_partial", "MysticVerif.C03.pw_step_record_unconstrained_witness", "MysticVerif.C03.solve_de_constrained", "MysticVerif.C03.solve_nm_constrained", "MysticVerif.C03.solve_pw_constrained", "MysticVerif.Reconfig.reconfigured_record_origin", "MysticVerif.Reconfig.reconfigured_evaluations_constrained", "MysticVerif.Reconfig.nm_reconfigured_evaluations_constrained"]
 
 
 def run_shard(pid, seed, shard, ncases, tier, extra):
